@@ -124,8 +124,12 @@ def rule_b(ctx):
         cl = [c for c in action_closures(F) if c.name == a.name + "::{closure#0}"]
         if len(cl) != 1 or not sig_up:
             raise AnchorLost("action closure of %s" % a.name)
-        cl = cl[0]; k = sig_up[0]; ks = set(sig_up)
-        for sb, st in store_calls(F, cl):
+        from .nf import NF
+        cl = NF(F, cl[0]); k = sig_up[0]; ks = set(sig_up)
+        stc = store_calls(F, cl)
+        if not stc:
+            raise AnchorLost("the iterator action no longer calls Exfiltrator::store")
+        for sb, st in stc:
             slot = [deep_strip(e) for e in flow(cl).term_arg(sb, 1)]
             idx = []
             for e in slot:
@@ -161,8 +165,13 @@ def rule_c(ctx):
         d = deps(A, flow(A).term_arg(bb, 1))
         cur = {x[1] for x in d if x[0] == "param"}
         ctx.check(cur == {2}, rid, "dispatcher:info-argument", "the record passed to actions derives from the handler's own `info` pointer only", t["sp"], sorted(cur))
-    for cl in action_closures(F):
-        for sb, st in store_calls(F, cl):
+    from .nf import NF
+    for cl0 in action_closures(F):
+        cl = NF(F, cl0)
+        stc = store_calls(F, cl)
+        if not stc:
+            raise AnchorLost("the iterator action no longer calls Exfiltrator::store")
+        for sb, st in stc:
             a = [deep_strip(e) for e in flow(cl).term_arg(sb, 3)]
             okk = all(strip(e[1] if e[0] == "ref" else e) in (("param", 2), ("deref", ("param", 2))) or deps(cl, [e], follow=lambda d: False) == {("param", 2)} for e in a)
             ctx.check(okk, rid, "action<%s>:forwards-info" % exf_of(cl.name), "the action passes its own siginfo argument to store", st["sp"], [show(e) for e in a])
